@@ -690,7 +690,7 @@ def check_failure_paths(ctx, rep):
                     m = re.match(r"^less\(_%d, (.*)\)$" % p, a)
                     if m and "::len(" in m.group(1):
                         want = a
-                good = want is not None and bool(paths) and all((want, True) in lits for _b, lits, _e in paths)
+                good = want is not None and bool(paths) and all((want, True) in p[1] for p in paths)
                 if good:
                     rep.ok("R-ERR", key, body.where(bi2), "%s(index) is reached only with index < len(): an index equal to the length is rejected like any other bad index" % opn)
                 else:
